@@ -76,8 +76,41 @@ def parseBits (s : String) : Option (Bool × Bool × Bool × Bool × Bool) :=
     else none
   | _ => none
 
-def stepD (d : Driver) (s : St) (w : List String) : St × String :=
+/-- lines the harness does not execute: opening a FIFO through the plain file API would block -/
+def fifoGuard (s : St) (w : List String) : Bool :=
   match w with
+  | ["open", _, name, _] => s.isFifo name
+  | ["fseqopen", _, name, _] => s.isFifo name
+  | ["content", name] => s.isFifo name
+  | ["readall", name] => s.isFifo name
+  | ["writeall", name, _] => s.isFifo name
+  | _ => false
+
+def stepD (d : Driver) (s : St) (w : List String) : St × String :=
+  if fifoGuard s w then (s, "unsupported") else
+  match w with
+  | ["fifo", p, name] =>
+    match p.toNat? with
+    | some p =>
+      match s.resolve resolveFuel name with
+      | .error e => (s, s!"err {e}")
+      | .ok (_, none) => (s, s!"err {ENOENT}")
+      | .ok (_, some .dir) => (s, s!"err {EISDIR}")
+      | .ok (_, some (.fifo _)) => ({ s with pipes := insert s.pipes p ⟨[], true, true, true⟩ }, "ok")
+      -- a regular file opens, then `is_fifo` fails: InvalidInput "not a pipe"
+      | .ok (_, some _) => (s, s!"err {EINVAL}")
+    | none => (s, "bad-op")
+  | ["writeall", name, h] =>
+    match parseHex h with
+    | some data =>
+      -- `File::create` = write + create + truncate, then `write_all_at(buf, 0)`
+      let (s', o) := s.openFile 1000000 name (Gen.OpenFlags.openFlags false true true true false)
+      match o, lookup s'.handles 1000000 with
+      | .ok, some ⟨some i, _, _, _⟩ =>
+        ({ (s'.setContent i (pwrite (s'.content i) 0 data)) with handles := remove s'.handles 1000000 }, "ok")
+      | .ok, _ => (s, "bad-op")
+      | .err e, _ => (s, s!"err {e}")
+    | none => (s, "bad-op")
   | ["open", h, name, bits] =>
     match h.toNat?, parseBits bits with
     | some h, some (r, wr, t, c, n) =>
@@ -171,11 +204,13 @@ def stepD (d : Driver) (s : St) (w : List String) : St × String :=
       | .file n => (s, s!"ok file {n}")
       | .dir => (s, "ok dir")
       | .symlink => (s, "ok symlink")
+      | .other => (s, "ok other")
       | .err e => (s, s!"err {e}")
     else if st = "mkdir" then let (s', o) := s.mkdir name; (s', showOut o)
     else if st = "rmdir" then let (s', o) := s.rmdir name; (s', showOut o)
     else if st = "unlink" then let (s', o) := s.unlink name; (s', showOut o)
-    else if st = "content" then
+    else if st = "mkfifo" then let (s', o) := s.mkfifo name; (s', showOut o)
+    else if st = "content" ∨ st = "readall" then
       match s.resolve resolveFuel name with
       | .error e => (s, s!"err {e}")
       | .ok (_, some (.file i)) => (s, s!"ok {hexOf (s.content i)}")
@@ -183,7 +218,7 @@ def stepD (d : Driver) (s : St) (w : List String) : St × String :=
       | .ok (_, _) => (s, s!"err {ENOENT}")
     else if st = "pipe" then
       match name.toNat? with
-      | some p => ({ s with pipes := insert s.pipes p ⟨[], true, true⟩ }, "ok")
+      | some p => ({ s with pipes := insert s.pipes p ⟨[], true, true, false⟩ }, "ok")
       | none => (s, "bad-op")
     else (s, "bad-op")
   | ["rename", a, b] => let (s', o) := s.rename a b; (s', showOut o)
@@ -210,7 +245,7 @@ def stepD (d : Driver) (s : St) (w : List String) : St × String :=
         let data := b.offeredBytes k
         if pp.buf.length + data.length > pipeLimit then (s, "full") else
         if data.isEmpty then (s, "ok 0") else
-        if !pp.rOpen then (s, s!"err {EPIPE}") else
+        if !pp.rOpen ∧ !pp.fifo then (s, s!"err {EPIPE}") else
         ({ s with pipes := insert s.pipes p { pp with buf := pp.buf ++ data } }, s!"ok {data.length}")
     | _, _, _ => (s, "bad-op")
   | ["pwritev", p, bufs] =>
@@ -224,7 +259,7 @@ def stepD (d : Driver) (s : St) (w : List String) : St × String :=
         let data := offeredBytesVec k bs
         if pp.buf.length + data.length > pipeLimit then (s, "full") else
         if data.isEmpty then (s, "ok 0") else
-        if !pp.rOpen then (s, s!"err {EPIPE}") else
+        if !pp.rOpen ∧ !pp.fifo then (s, s!"err {EPIPE}") else
         ({ s with pipes := insert s.pipes p { pp with buf := pp.buf ++ data } }, s!"ok {data.length}")
     | _, _, _ => (s, "bad-op")
   | ["pread", p, buf] =>
@@ -235,7 +270,7 @@ def stepD (d : Driver) (s : St) (w : List String) : St × String :=
       | some pp =>
         if !pp.rOpen then (s, "closed") else
         if !decide b.wf then (s, "panic") else
-        if pp.buf.isEmpty ∧ pp.wOpen then (s, "wouldblock") else
+        if pp.buf.isEmpty ∧ (pp.wOpen ∨ pp.fifo) then (s, "wouldblock") else
         let (n, b') := readOp k b pp.buf 0
         ({ s with pipes := insert s.pipes p { pp with buf := pp.buf.drop n } }, showRead n b')
     | _, _, _ => (s, "bad-op")
@@ -247,7 +282,7 @@ def stepD (d : Driver) (s : St) (w : List String) : St × String :=
       | some pp =>
         if !pp.rOpen then (s, "closed") else
         if !allWf bs then (s, "panic") else
-        if pp.buf.isEmpty ∧ pp.wOpen then (s, "wouldblock") else
+        if pp.buf.isEmpty ∧ (pp.wOpen ∨ pp.fifo) then (s, "wouldblock") else
         let (n, bs') := readVecOp k bs pp.buf 0
         ({ s with pipes := insert s.pipes p { pp with buf := pp.buf.drop n } }, showReadVec n bs')
     | _, _, _ => (s, "bad-op")
